@@ -28,7 +28,7 @@ pub fn run(rep: &mut Report, tier: &str) {
     let seed = rep.seed;
     let walk = SpecWalk::new();
     let n_types = walk.types.len();
-    let cases = if thorough { n_types * 2 } else { 3000 };
+    let cases = if thorough { n_types * 4 } else { n_types };
     let shards = 64;
     let per = cases.div_ceil(shards);
     let walk_ref = &walk;
